@@ -75,8 +75,21 @@ Lemma scalar_roundtrip_array_l : forall (F : fops) (st : mstate) (n m : nat) (k 
 Proof. intros. apply array_roundtrip_number_l; assumption. Qed.
 
 Lemma json_roundtrip_l : forall (F : fops) (ops : list op),
+  forallb op_guard ops = true ->
   Forall2 agrees (run F cfg_fixed ops) (s_run ops).
-Proof. intros. apply run_refines_from. apply R_init. Qed.
+Proof. intros. apply run_refines_from; [assumption | apply R_init]. Qed.
+
+Lemma scope_roundtrip_l : forall (isConst : bool) (k : kind) (v : Z),
+  in_range k v = true -> is_unsigned k = false ->
+  scope_decl cfg_fixed isConst (LScalar k v) = ODecl isConst (s_cname k) false /\
+  scope_reads cfg_fixed (LScalar k v) = OType (lit_otype (LScalar k v)).
+Proof. intros. split; [apply scope_decl_signed | apply scope_reads_signed]; assumption. Qed.
+
+Lemma scope_unsigned_refuted_l :
+  exists k v, in_range k v = true /\
+    scope_decl cfg_fixed true (LScalar k v) <> ODecl true (s_cname k) false /\
+    scope_reads cfg_fixed (LScalar k v) <> OType (lit_otype (LScalar k v)).
+Proof. exists KU8, 200. split; [reflexivity|]. split; vm_compute; discriminate. Qed.
 
 Lemma spec_store_read_back_l : forall (d : doc) (p q : path) (g : doc), graft d p g (p ++ q) = g q.
 Proof. intros. unfold graft. rewrite strip_prefix_self. reflexivity. Qed.
